@@ -246,6 +246,22 @@ def check_cfg(ctx, fx, cfg):
             fsk = sinks(b, inv[0]["dest"][0])
             esc = [s for s in fsk if s["k"] == "call" and not ((s["t"].get("callee") or "").endswith(("Future::poll", "get_context")) or loops.local_wrapper(s["t"]))] + [s for s in fsk if s["k"] in ("agg", "store", "ret")]
             ctx.require(not esc, "R01.5", "%s-loop-handler-future-local@%s" % (kind, cfg), "the handler future escapes the loop iteration (spawned / stored): %s" % [(s["k"], s.get("t", {}).get("callee")) for s in esc], fn=f["def"], site=inv[0]["l"])
+    # R01.10 the only sanctioned way a dequeued handler is not run to completion is the timeout wrapper; it must follow its
+    # protocol (timer armed per invocation with the configured limit, nothing abandoned without a limit) — shared with C11
+    from props import c11
+    for f, kind, b, n in res:
+        if kind != "plain":
+            continue
+        wraps = [(bi, t) for bi, t in b.normal_calls() if loops.local_wrapper(t)]
+        if ctx.require(len(wraps) == 1, "R01.10", "wrapper-site@" + cfg, "expected exactly one timeout wrapper call in the plain loop", fn=f["def"], site=f["loc"]):
+            wco = [c for c in fx.children_of(wraps[0][1]["callee"]) if c["kind"] == "coroutine"]
+            if ctx.require(len(wco) == 1, "R01.10", "wrapper-body@" + cfg, "body of the timeout wrapper not found", fn=f["def"], site=f["loc"]):
+                before = len(ctx.violations)
+                c11.check_wrapper(ctx, fx, wco[0])
+                # re-key what the shared rule reported under this property's rule id
+                for v in ctx.violations[before:]:
+                    v["rule"] = "R01.10"
+                    v["key"] = "%s/R01.10/%s" % (ctx.prop, v["instance"])
     # R01.6 types
     pa = fx.adts.get(loops.PAYLOAD)
     if ctx.require(pa is not None, "R01.6", "payload-type@" + cfg, "environment::payload::Payload not found"):
